@@ -76,7 +76,18 @@ fn gen_config(rng: &mut Rng) -> (String, String) {
     }
     if rng.chance(2, 3) {
         let p = pick(rng, "content.rules", "src/**", "**/src/**");
-        c += &format!("[[content.rules]]\npattern = \"{p}\"\nmax_lines = 4\n");
+        // the rule's own warn point differs from the one derived from the global threshold (0.5)
+        match rng.below(3) {
+            0 => c += &format!("[[content.rules]]\npattern = \"{p}\"\nmax_lines = 4\n"),
+            1 => {
+                c += &format!("[[content.rules]]\npattern = \"{p}\"\nmax_lines = 10\nwarn_threshold = 1.0\n");
+                tag.borrow_mut().push("rule-limit-10".into());
+            }
+            _ => {
+                c += &format!("[[content.rules]]\npattern = \"{p}\"\nmax_lines = 10\nwarn_at = 9\n");
+                tag.borrow_mut().push("rule-limit-10".into());
+            }
+        }
     }
     if rng.chance(1, 2) {
         // `.py` is not in content.extensions: these files are in scope through this rule only
@@ -212,6 +223,62 @@ fn spelling_case(sink: &mut Sink, rng: &mut Rng, bin: &str, scratch: &str) {
             Err(e) => problems.push(format!("target `{label}`: {e}")),
         }
     }
+    // the same for targets given with --include, and for file arguments given with --files
+    let groups: Vec<(&str, Vec<Vec<String>>)> = vec![
+        ("--include", ["src", "./src", "src/"].iter().map(|x| vec!["--include".to_string(), (*x).to_string()]).chain(std::iter::once(vec!["--include".to_string(), format!("{abs}/src")])).collect()),
+        ("--files", ["src/main.rs", "./src/main.rs"].iter().map(|x| vec!["--files".to_string(), (*x).to_string(), "--files".to_string(), "tests/t.rs".to_string()]).chain(std::iter::once(vec!["--files".to_string(), format!("{abs}/src/main.rs"), "--files".to_string(), format!("{abs}/tests/t.rs")])).collect()),
+    ];
+    if problems.is_empty() && subdir {
+        for (flag, variants) in &groups {
+            let mut first: Option<(String, i32, Rows)> = None;
+            for args in variants {
+                let label = args.join(" ").replace(&abs, "<abs>");
+                match run_check(bin, &dir, args) {
+                    Ok((rc, rows)) => match &first {
+                        None => first = Some((label, rc, rows)),
+                        Some((l0, rc0, r0)) => {
+                            if let Some(d) = diff_rows(r0, &rows, None) {
+                                problems.push(format!("key={}-spelling `{l0}` vs `{label}`: {d}", flag.trim_start_matches('-')));
+                            } else if rc != *rc0 {
+                                problems.push(format!("`{l0}` exits {rc0}, `{label}` exits {rc}"));
+                            }
+                        }
+                    },
+                    Err(e) => problems.push(format!("`{label}`: {e}")),
+                }
+                if !problems.is_empty() {
+                    break;
+                }
+            }
+        }
+    }
+    // `explain` names the same rule, limit and warn point whichever way its argument is spelled
+    if problems.is_empty() && subdir {
+        let mut first: Option<(String, serde_json::Value)> = None;
+        for (label, arg) in [("src/main.rs", "src/main.rs".to_string()), ("./src/main.rs", "./src/main.rs".to_string()), ("<abs>/src/main.rs", format!("{abs}/src/main.rs"))] {
+            let o = Command::new(bin).args(["explain", "--format", "json", &arg]).current_dir(&dir).env("NO_COLOR", "1").output().expect("run sloc-guard");
+            match serde_json::from_slice::<serde_json::Value>(&o.stdout) {
+                Ok(mut v) => {
+                    if let Some(m) = v.as_object_mut() {
+                        m.remove("path");
+                    }
+                    match &first {
+                        None => first = Some((label.to_string(), v)),
+                        Some((l0, v0)) => {
+                            if *v0 != v {
+                                problems.push(format!("key=files-spelling `explain {l0}` and `explain {label}` differ: limit {} / {} warn point {} / {} rule {} / {}", v0["effective_limit"], v["effective_limit"], v0["effective_warn_at"], v["effective_warn_at"], v0["matched_rule"], v["matched_rule"]));
+                                break;
+                            }
+                        }
+                    }
+                }
+                Err(_) => {
+                    problems.push(format!("`explain {label}` printed no JSON (exit {:?})", o.status.code()));
+                    break;
+                }
+            }
+        }
+    }
     // a pattern written relative to the project root takes effect (independently of spelling)
     if !subdir && problems.is_empty() {
         if let Some((_, _, rows)) = &reference {
@@ -224,7 +291,7 @@ fn spelling_case(sink: &mut Sink, rng: &mut Rng, bin: &str, scratch: &str) {
             if (has("content.exclude:root") || has("content.exclude:any")) && any_under("src/gen/", "[content]") {
                 problems.push("key=raw-path-matching content.exclude does not exclude src/gen/".to_string());
             }
-            if (has("content.rules:root") || has("content.rules:any")) && !any_under("src/gen/", "[content]") && limit_of("src/main.rs [content]").is_some_and(|l| l != "4") {
+            if (has("content.rules:root") || has("content.rules:any")) && !any_under("src/gen/", "[content]") && limit_of("src/main.rs [content]").is_some_and(|l| l != if has("rule-limit-10") { "10" } else { "4" }) {
                 problems.push(format!("key=raw-path-matching the content rule for src/** does not apply to src/main.rs (limit {:?})", limit_of("src/main.rs [content]")));
             }
             if (has("content.rules-ext:root") || has("content.rules-ext:any")) && !rows.contains_key("scripts/gen.py [content]") {
